@@ -215,6 +215,8 @@ def check_property(prop, cfg, tier, seed, replay=None):
     # 5: outcome
     out_lines, nviol = [], 0
     reported = set()
+    # concrete failing inputs first: the cap below must not hide them behind broken-tie lines
+    violations.sort(key=lambda v: 1 if v.get("no_input") else 0)
     for v in violations:
         k = core.match_known(prop, v["descriptor"], known)
         if k:
